@@ -96,10 +96,6 @@ theorem tokens_no_end (inp : CtorIn) (P : Parser) (hP : construct inp = .ok P)
     ∀ tok ∈ (P.tokens raw).dropLast, tok.name ≠ endSym :=
   LL.tokens_no_end (construct_built hP).hsyn (construct_built hP).hkw hend hraw
 
-/-- **Names are modelled faithfully**: decoding a Python name into a structured symbol (base name +
-path of helper indices) and printing it back is the identity, for every string. -/
-theorem names_faithful (n : List Char) : (parseSym n).name = n := name_parseSym n
-
 /-- **The same for `parse(text, start_symbol_name=s)`** with `s` any key of `productions`: the tree is
 rooted at `s` and is a derivation of the user's grammar from `s` (the documented "parse a fragment"
 feature runs the same loop on the same table from `$START$ → s $END$`). -/
@@ -111,32 +107,13 @@ theorem parse_from_valid (inp : CtorIn) (P : Parser) (hP : construct inp = .ok P
       t.yield = (P.tokens raw).dropLast :=
   parseFrom_sound (construct_built hP) s hs raw hEnd fuel t h
 
-/-- **A parser object has no memory between calls.**  In the model `parse` / `parseFrom` /
-`is_ambiguous` are functions of the constructed parser, the start symbol and the tokens; the state
-the driver threads through a sequence of requests is the list of constructed parsers plus the index of
-the current one, and every request other than `g` (construct), `use` (select) and `reset` leaves it
-unchanged — so the answer to a call does not depend on the calls made before it (explicit start symbol
-then default, parse after a failed parse, …).  The correspondence issues such call sequences on one
-real parser object. -/
-theorem no_memory (st : LL.Drv.DState) (line : String)
-    (h1 : ∀ rest, Ak.Proto.splitWs line ≠ "reset" :: rest) (h2 : ∀ args, Ak.Proto.splitWs line ≠ "g" :: args)
-    (h3 : ∀ k, Ak.Proto.splitWs line ≠ ["use", k]) :
-    (LL.Drv.handle st line).1 = st :=
-  handle_keeps_state st line h1 h2 h3
-
-/-- **A parser's behaviour depends on its own construction arguments only.**  No request (constructing
-further parsers — with the same symbol names, with templates —, parsing with any of them) alters an
-existing parser object: the list of parsers only grows at the end.  The correspondence interleaves 2-3 real
-parser objects with overlapping symbol names in one process. -/
-theorem parsers_independent (st : LL.Drv.DState) (line : String)
-    (h1 : ∀ rest, Ak.Proto.splitWs line ≠ "reset" :: rest) :
-    ∃ new, (LL.Drv.handle st line).1.slots = st.slots ++ new :=
-  handle_slots_prefix st line h1
-
-/-- the driver's constructor (`constructG`, which also takes the productions generated by templates as
-data) is `construct` when the dictionary has no templates -/
-theorem plain_is_construct (inp : CtorIn) : constructG Tmpl.none inp = construct inp :=
-  constructG_none inp
+/-! Facts about the *model* that the statements above and the correspondence rely on are lemmas, not property
+theorems (they say nothing about the parser by themselves): `LL.name_parseSym` (decoding a Python name into a
+structured symbol and printing it back is the identity), `LL.handle_keeps_state` / `LL.handle_slots_prefix` (the
+driver's state is the list of constructed parsers plus an index; only `g` / `use` / `reset` change it, and `g` only
+appends — so in the model a call's answer cannot depend on earlier calls; that the *real* parser object behaves
+this way is what the call sequences of the correspondence test), `LL.constructG_none` (`constructG` without
+templates is `construct`). -/
 
 /-- **The property for dictionaries with production templates** (`ProdSequence`, `ListProds`, `MapProds`;
 the productions a template generates enter the model as data `T`, their derivation is C05's subject): the
